@@ -7,6 +7,7 @@
    monitors (exclusivity, survival, created <= peak, ledger), not replayed on the model. *)
 From Coq Require Import List Arith Bool.
 From BS Require Import Pool PoolProofs.
+From BS.gen Require PoolFacts.
 Import ListNotations.
 
 Theorem C19_invariant_in_every_reachable_state : forall xs, inv (run init xs).
@@ -55,6 +56,14 @@ Theorem C19_pool_drop_releases_each_idle_arena_once :
   released s' = idle s /\ NoDup (released s') /\ (forall a, In a (leaked s) -> ~ In a (released s')).
 Proof. exact pool_drop_releases_each_idle_arena_once. Qed.
 
+(* the shapes of the CURRENT src/bump_pool.rs that the pool model relies on, read out on every run (gen/PoolFacts.v): every
+   get form pops an idle arena if there is one and creates one only otherwise - it never inspects or drops the arena
+   it popped; the guard's drop pushes its arena back unconditionally; lock() and bumps() ignore mutex poisoning;
+   reset / reset_to_start visit every arena *)
+Theorem C19_source_pool_shapes_are_the_models :
+  PoolFacts.pool_shapes_ok = true.
+Proof. vm_compute. reflexivity. Qed.
+
 Print Assumptions C19_invariant_in_every_reachable_state.
 Print Assumptions C19_no_two_live_guards_share_an_arena.
 Print Assumptions C19_held_arena_is_neither_idle_nor_leaked.
@@ -65,3 +74,4 @@ Print Assumptions C19_allocations_survive_any_schedule_without_rewind.
 Print Assumptions C19_rewinding_needs_exclusive_access.
 Print Assumptions C19_pool_reset_rewinds_every_idle_arena.
 Print Assumptions C19_pool_drop_releases_each_idle_arena_once.
+Print Assumptions C19_source_pool_shapes_are_the_models.
